@@ -955,7 +955,7 @@ def run_render_angle(tier, rng):
             yield case, ok, detail
     literals = [u"", u"<", u">"]
     values = [u"", u"x", u"col2", u"<"]
-    maxp = 3 if tier == "thorough" else 2
+    maxp = 2 if tier == "thorough" else 1
     for k in (1, 2):
         seen = set()
         for template in render_templates(k, literals, maxp):
@@ -1124,9 +1124,9 @@ CHECKS = [
             "quick": "25 one-position outlines through the parser (5 texts with lone angle brackets next to placeholders "
                      "x positions name/step/doc-string/table heading/table cell, rows (b,Q) and (x,'')), then EXHAUSTIVE "
                      "on render_template: k in {1,2} columns, ALL rows over {'', 'x', 'col2', '<'}^k (no value contains a "
-                     "'<...>' pattern), ALL templates with n <= 2 placeholders and literals Li in {'', '<', '>'} "
+                     "'<...>' pattern), ALL templates with n <= 1 placeholder and literals Li in {'', '<', '>'} "
                      "(lone angle brackets around placeholders).",
-            "thorough": "as quick with n <= 3 placeholders.",
+            "thorough": "as quick with n <= 2 placeholders.",
         },
         run=run_render_angle, replay=replay_render,
         contract="same as render-template: render_template(t, r) == subst(t, r); a value is never rescanned for "
